@@ -1,4 +1,4 @@
-// verif:properties C10
+// verif:properties C10 C09
 package uhppote
 
 import (
@@ -134,3 +134,6 @@ func VerifC10_ListenFails() {
 	verifAssert(verifGoroutines() == 0, "Listen: the dispatch goroutine ends when listening fails")
 	verifReach("c10.listenfails")
 }
+
+// C09: a Listen that fails leaves no goroutine behind
+func VerifC09_ListenFailureReleasesGoroutines() { VerifC10_ListenFails() }
